@@ -4,16 +4,18 @@ E1 over raw SMILES *tokens* (so most strings are invalid SMILES - invalid input 
 (strict, attribute) combinations, plus complete parametric families: branch nesting depth 1..1200 in the style that
 forces recursion, ring spans and branch lengths around 16 / 256 / 4096, long chains.
 """
+import functools
 import signal
 
 from mc import enum_strings as E1
 from mc.runner import Result, h64
 
 PROPERTY = "C09"
+OWN_WATCHDOG = True      # per-call / per-shard watchdogs below (SIGALRM is used by this module itself)
 RULE = ("every concatenation of <= L tokens from each token alphabet (prefix tree) x 4 flag combinations, and every "
         "member of each parametric family; non-trivial = distinct (flags, outcome class, output) triples")
 ASSUMPTIONS = [
-    "non-termination is observed as 'no result within a watchdog of 20 s + 1 s per 100 input characters'",
+    "non-termination is observed as 'no result within a watchdog of 5 s + 1 s per 50 input characters'",
     "violation signatures are (exception class, innermost selfies frame)",
 ]
 
@@ -27,6 +29,31 @@ ALPH = {"aliphatic": T_ALI, "aromatic": T_ARO, "odd": T_ODD, "aromatic-core": T_
 FLAGS = [(s, a) for s in (True, False) for a in (False, True)]
 
 
+def aromatic_chords(nmax, kmax):
+    """all-'c' chain of n atoms (n even, 6..nmax) plus every set of <= kmax chords (ring bonds), degree <= 3:
+    aromatic systems with fused odd rings, where kekulization needs nested blossom contraction"""
+    import itertools
+    out = []
+    for n in range(6, nmax + 1, 2):
+        chords = [(a, b) for a in range(n) for b in range(a + 2, n)]
+        for k in range(1, kmax + 1):
+            for cs in itertools.combinations(chords, k):
+                deg = [2] * n
+                deg[0] = deg[-1] = 1
+                for a, b in cs:
+                    deg[a] += 1
+                    deg[b] += 1
+                if max(deg) > 3:
+                    continue
+                at = [[] for _ in range(n)]
+                for lab, (a, b) in enumerate(cs, 1):
+                    at[a].append(str(lab))
+                    at[b].append(str(lab))
+                out.append(("n=%d chords=%r" % (n, cs), "".join("c" + "".join(at[i]) for i in range(n))))
+    return out
+
+
+@functools.lru_cache(maxsize=None)
 def families(tier):
     D = 1200
     fams = []
@@ -52,6 +79,7 @@ def families(tier):
     fams.append(("long-digit-run", [("%s n=%d" % (k, n), t % ("1" * n)) for n in digs for k, t in
                                     (("isotope", "[%sC]"), ("charge", "C[C+%s]"), ("neg-charge", "[O-%s]C"), ("class", "[C:%s]"),
                                      ("Hcount", "[CH%s]"), ("aromatic-isotope", "c1cc[%sc]cc1"))]))
+    fams.append(("aromatic-chain+chords", aromatic_chords(12 if tier != "thorough" else 14, 4)))
     fams.append(("self-ring", [(s, s) for s in ("C11", "c11", "C1.C1", "C%11%11", "C12.C12", "CC11", "C1C1", "C11C",
                                                  "C=1=1", "[C@]11", "C1(C)1", "F:F", "c:[cn]", "C:C", "[Fe]:[Fe]", "c:F",
                                                  "C1:C:C:C:C:C1", "O:O", "[H]:[H]", "Cl:Cl", "B:B", "[Si]:[Si]")]))
@@ -81,6 +109,7 @@ def plan(tier, seed):
 _SF = None
 
 
+_TIMEOUTS = [0]          # a shard stops after 3 watchdog expiries (each costs >= 20 s); the rest is reported as a cap
 _SHARD_TIMER = [False]   # short strings of a shard share one watchdog (600 s per shard) instead of one timer per call
 
 
@@ -107,7 +136,7 @@ def innermost_selfies_frame(e):
 
 
 def call(s, strict, attribute):
-    budget = 20 + len(s) / 100.0
+    budget = 5 + len(s) / 50.0
     timed = len(s) > 200 or not _SHARD_TIMER[0]
     if timed:
         signal.setitimer(signal.ITIMER_REAL, budget)
@@ -139,6 +168,8 @@ def check(s, r, extra=None):
         r.evaluations += 1
         r.transitions += 1
         cls, detail, outp = call(s, st, at)
+        if cls == "timeout":
+            _TIMEOUTS[0] += 1
         if cls not in ("ok", "EncoderError"):
             allok = False
             case = {"input": s if len(s) <= 400 else None, "strict": st, "attribute": at}
@@ -173,8 +204,12 @@ def run(task):
     else:
         _, fi, lo, hi, tier = arg
         fname, members = families(tier)[fi]
+        _TIMEOUTS[0] = 0
         for label, s in members[lo:hi]:
             check(s, r, {"family": fname, "member": label})
+            if _TIMEOUTS[0] >= 3:
+                r.caps.append("shard of family %s stopped after 3 watchdog expiries" % fname)
+                break
         if lo == 0:
             r.sample({"scope": scope, "member": members[0][0], "input": members[0][1][:100]})
     return r
